@@ -87,6 +87,13 @@ func C14(c *core.Ctx) {
 	// a scripted behaviour that exercises every stamping path once more
 	behs = append(behs, []fatOp{{A: "Mkdir", P: "D"}, {A: "Create", P: "D/A"}, {A: "WriteAt", P: "D/A", Off: 0, Len: 5, Tag: 1}, {A: "Trunc", P: "D/A"}, {A: "Append", P: "D/A", Len: 4, Tag: 2},
 		{A: "Create", P: "L1"}, {A: "Rename", P: "L1", Q: "L2"}, {A: "Rename", P: "D/A", Q: "D/b"}, {A: "Remove", P: "D/b"}, {A: "Remove", P: "D"}, {A: "Churn", K: 20}})
+	firstScripted := len(behs) - 1
+	// space released and used again: which clusters the next file gets, and in which order, must not
+	// depend on anything but the history
+	behs = append(behs, []fatOp{{A: "Create", P: "A"}, {A: "Append", P: "A", Len: 8, Tag: 1}, {A: "Create", P: "b"}, {A: "Append", P: "b", Len: 5, Tag: 2}, {A: "Remove", P: "A"},
+		{A: "Create", P: "L1"}, {A: "Append", P: "L1", Len: 8, Tag: 3}, {A: "Remove", P: "b"}, {A: "Append", P: "L1", Len: 5, Tag: 4}, {A: "Create", P: "A"}, {A: "Append", P: "A", Len: 4, Tag: 5},
+		{A: "Rename", P: "A", Q: "L1"}, {A: "Create", P: "L2"}, {A: "Append", P: "L2", Len: 8, Tag: 6}, {A: "Trunc", P: "L2"}, {A: "Append", P: "L2", Len: 8, Tag: 7}})
+	behs = append(behs, fatHeldScript())
 	epochs := []int64{0, 315532799, 1700000001, 4354819205}
 	type cfgPair struct{ a, b fatCfg }
 	const MiB = 1 << 20
@@ -99,6 +106,11 @@ func C14(c *core.Ctx) {
 		pairs = append(pairs, cfgPair{fatCfg{Kind: "fat12", Size: 1474560, Start: 0, Names: "tricky", Repro: true}, fatCfg{Kind: "fat12", Size: 1474560, Start: 4096, Names: "tricky", Repro: true}},
 			cfgPair{fatCfg{Kind: "fat32", Size: 34 * MiB, Start: MiB, Names: "plain", Repro: true}, fatCfg{Kind: "fat32", Size: 34 * MiB, Start: 0, Names: "plain", Repro: true}})
 	}
+	// a FAT32 volume whose FAT has more than 65536 entries, in every tier: a share of the behaviours only
+	big32 := cfgPair{fatCfg{Kind: "fat32", Size: 34 * MiB, Start: 63 * 512, Names: "plain", Repro: true}, fatCfg{Kind: "fat32", Size: 34 * MiB, Start: 0, Names: "plain", Repro: true}}
+	if c.Tier != "thorough" {
+		pairs = append(pairs, big32)
+	}
 	var jobsA, jobsB []map[string]any
 	type meta struct {
 		pair  int
@@ -108,7 +120,7 @@ func C14(c *core.Ctx) {
 	var metas []meta
 	for pi, p := range pairs {
 		for bi, ops := range behs {
-			if p.a.Size > 2*MiB && bi%4 != 0 {
+			if p.a.Size > 2*MiB && bi%4 != 0 && bi < firstScripted {
 				continue
 			}
 			ep := epochs[(bi+pi)%len(epochs)]
